@@ -55,7 +55,7 @@ LEVELS = [[1], [3, 2, 1], [12, 1]]
 
 
 def BOUNDS(tier):
-    return {"max_lines": 3 if tier == "quick" else 4}
+    return {"max_lines": 4 if tier == "quick" else 5}
 
 
 def program_messages():
